@@ -30,7 +30,7 @@ var slotReq = map[string]string{
 	"SliceInstantiation.values": "EqualsEach",
 	"Len.expression":            "SliceOrString",
 	"Input.prompt":              "String",
-	"Print.expressions":         "NonVoidEach", "Panic.expression": "NonVoid", "AppCall.args": "NonVoidEach",
+	"Print.expressions":         "NonVoidEach", "Panic.expression": "NonVoid", "AppCall.args": "NonVoidSingleEach",
 	"Copy.source": "SliceEquals",
 	"Itoa.value":  "Int", "Exists.path": "String", "Read.path": "String",
 	"Write.path": "String", "Write.data": "String", "Write.append": "Bool",
@@ -234,6 +234,10 @@ func (pf *ParserFacts) judgeSlot(s SlotStore, req string) []slotVerdict {
 		out = append(out, pf.listReq(s, "Equals"))
 	case "NonVoidEach":
 		out = append(out, pf.listReq(s, "NonVoid"))
+	case "NonVoidSingleEach":
+		// an argument of a program call is one word: a call with several results has no single value
+		out = append(out, pf.listReq(s, "NonVoid"))
+		out = append(out, pf.listReq(s, "Single"))
 	case "EqualsEach+Arity":
 		out = append(out, pf.listReq(s, "Equals"))
 		out = append(out, pf.listReq(s, "Arity"))
